@@ -131,7 +131,19 @@ def eq_terms(a: Term, b: Term):
             if not tr.atoms:
                 if sp.expand(ea - eb) == 0:
                     return True, "equal index expressions"
-                return False, f"index expression {show(a)[:40]} where {show(b)[:40]} is required"
+                # a definite difference needs free quantities: counters, parameters and numbers.  Variables that take the
+                # elements of a container (and components of such structured loop targets) are data - two of them, or one of
+                # them and a counter, may well denote the same particle
+                def _data(t_):
+                    b_ = t_
+                    while b_[0] in ("elem", "sub"):
+                        b_ = b_[1]
+                    return (b_[0] == "loopvar" and len(b_) > 3) or t_[0] in ("sub", "attr")
+                if not any(_data(t_) for t_ in lv):
+                    return False, f"index expression {show(a)[:40]} where {show(b)[:40]} is required"
+                why_ = S.term_definite_difference(a, b)     # same data reads on both sides, differing in counters / constants
+                if why_:
+                    return False, f"index expression {show(a)[:40]} where {show(b)[:40]} is required ({why_})"
         except Exception:  # noqa
             pass
     try:
